@@ -32,7 +32,8 @@ RULE = ("case = (violated condition from the C06 grammar on a require, ensure or
         "module or builtin; (7) _ARGS/_KWARGS listed iff the condition names them. non-trivial = a value exceeds a "
         "limit of the contract's a_repr, or a set-valued argument is shown, or >=4 value lines; distinct = hash(text, "
         "inputs, limits).")
-ASSUMPTIONS = ["sets are homogeneous (a mixed-type set's own order is outside what the library controls)",
+ASSUMPTIONS = ["no value in the condition has an address-bearing repr (the grammar's zip()/enumerate() productions are off here)",
+               "sets are homogeneous (a mixed-type set's own order is outside what the library controls)",
                "call and subscript results are never classes/functions/modules (whether those are 'left out' is not "
                "settled by the statement; names and attributes are)"]
 KNOWN = {}
@@ -197,7 +198,8 @@ def extra_bindings(case, named, built):
 
 @st.composite
 def st_case(draw):
-    cond = draw(GR.st_condition(depth=3))
+    # no zip()/enumerate() objects: their reprs carry an address, which a_repr may cut anywhere
+    cond = draw(GR.st_condition(depth=3, structured=False))
     limits = None
     if draw(st.booleans()):
         limits = {"maxstring": draw(st.integers(5, 40)), "maxlist": draw(st.integers(1, 8)), "maxset": draw(st.integers(1, 8)),
